@@ -79,6 +79,13 @@ func (t *Tape) Read(p []byte) (int, error) {
 	if len(t.Chunk) > 0 && t.Reads >= t.chunkFrom {
 		c := t.Chunk[t.chunkPos%len(t.Chunk)]
 		t.chunkPos++
+		if c < 0 {
+			// a read that delivers nothing and reports no error (legal for an io.Reader; io.ReadFull simply asks again)
+			if t.KeepLog {
+				t.Log = append(t.Log, ReadRec{len(p), 0, false})
+			}
+			return 0, nil
+		}
 		if c > 0 && c < want {
 			want = c
 		}
